@@ -135,8 +135,20 @@ fn retain_sort<const K: usize, const ALL_BITS: bool>() {
 
 #[kani::proof]
 #[kani::unwind(6)]
+pub fn c10_strains_retain_sort_k2() {
+    retain_sort::<2, false>();
+}
+
+#[kani::proof]
+#[kani::unwind(6)]
 pub fn c10_strains_retain_sort_k3() {
     retain_sort::<3, false>();
+}
+
+#[kani::proof]
+#[kani::unwind(6)]
+pub fn c11_strains_retain_sort_allbits_k2() {
+    retain_sort::<2, true>();
 }
 
 #[kani::proof]
@@ -166,6 +178,16 @@ fn into_vec_pattern<const K: usize, const ZEROS: u32>() {
         assert!(same(v[i], vals[i]), "C10 StrainsVec: into_vec re-expands zero runs in place");
     }
     core::mem::forget(v);
+}
+
+#[kani::proof]
+#[kani::unwind(8)]
+pub fn c10_strains_into_vec_k2() {
+    into_vec_pattern::<2, 0>();
+    into_vec_pattern::<2, 1>();
+    into_vec_pattern::<2, 2>();
+    into_vec_pattern::<2, 3>();
+    kani::cover!(true, "end reached");
 }
 
 #[kani::proof]
@@ -203,4 +225,5 @@ pub fn c10_strains_sum_k3() {
 verif_replay_table!(verif_replay_strains_vec;
     c10_strains_push_iter_k3, c10_strains_push_iter_k4, c11_strains_push_iter_allbits_k3,
     c10_strains_retain_sort_k3, c11_strains_retain_sort_allbits_k3, c10_strains_into_vec_k3, c10_strains_sum_k3,
+    c10_strains_retain_sort_k2, c11_strains_retain_sort_allbits_k2, c10_strains_into_vec_k2,
 );
